@@ -76,6 +76,7 @@ func Verif_C20_handshake() {
 		for len(opts)%4 != 0 {
 			opts = append(opts, 0)
 		}
+		V.Assume(len(opts) <= 40) // a TCP header carries at most 40 option bytes
 		hl := 20 + len(opts)
 		ta, la := target.Addr().As4(), local.As4()
 		p := N.IP4Header(ta[:], la[:], 6, hl)
